@@ -89,15 +89,19 @@ func fixedString(x float64, f int) string {
 func builtinNumberToExponential(call FunctionCall) Value {
 	// Will throw a TypeError if ThisObject is not a Number
 	number := call.thisClassObject(classNumberName).primitiveValue().float64()
+	// 15.7.4.6 step 2: ToInteger(fractionDigits) precedes the NaN and infinity answers (steps 3-6)
+	fractionDigits := call.Argument(0)
+	precision := float64(-1)
+	if fractionDigits.IsDefined() {
+		precision = toIntegerFloat(fractionDigits)
+	}
 	if math.IsNaN(number) {
 		return stringValue("NaN")
 	}
-	if math.IsInf(number, 0) { // 15.7.4.6 step 6 precedes the range check
+	if math.IsInf(number, 0) { // step 6 precedes the range check
 		return stringValue(floatToString(number, 64))
 	}
-	precision := float64(-1)
-	if value := call.Argument(0); value.IsDefined() {
-		precision = toIntegerFloat(value)
+	if fractionDigits.IsDefined() {
 		if 0 > precision || 20 < precision {
 			panic(call.runtime.panicRangeError("toExponential() fractionDigits must be between 0 and 20"))
 		}
